@@ -127,6 +127,8 @@ class C12(Check):
         cobj = cats.coords_obj(centres)
         given = cobj.data.copy()
         cat = cats.create(tmp / "c", cats.table(ra, dec, w=w), centers=cobj, chunksize=int(rng.choice([7, 50, 10**6])))
+        # the caller goes on using (and modifying) its own centre array: the catalog must not change with it
+        cobj.data += 0.25
         for tag, c in (("created", cat), ("reopened", Catalog(tmp / "c", max_workers=1))):
             check_catalog_meta(c, bad, counters, tag)
             counters["alignment_checks"] = counters.get("alignment_checks", 0) + 1
@@ -153,6 +155,7 @@ class C12(Check):
                     bad("alignment:patch-size-differs-from-nearest-centre-partition", dict(tag=tag, patch=p,
                         got=c[p].meta.num_records, want=int((pid == p).sum())))
                     break
+        cobj.data -= 0.25
         # catalog as patch_centers: second catalog inherits exactly these centres
         xyz2, pid2 = self._points(rng, centres, r * 0.7, rng.integers(1, 20, P))
         ra2, dec2 = gen.xyz_to_radec(xyz2)
